@@ -132,5 +132,58 @@ pub fn run(scn: &str) {
         let two = 2.0f64;
         ck("pow-two-is-square", [0.5f64, 3.0, 1e-200, 1.25e100, -7.0].iter().all(|x| num_traits::Pow::pow(*x, two) == x * x), String::new());
     }
+    // ---- whole-array arithmetic, axis-0 slicing and assign (specs/arrayops.rs, Periodic arms of solve_for_k)
+    for sh in [vec![4usize], vec![5, 3], vec![4, 2, 2], vec![6, 1]] {
+        for (lname, a) in layouts(&sh) {
+            let n = sh[0];
+            let rows = rows_of(&a);
+            let lanes = rows[0].len();
+            let r0 = a.index_axis(Axis(0), 0);
+            let r1 = a.index_axis(Axis(0), 1);
+            let flat = |x: &ArrayD<f64>| x.iter().copied().collect::<Vec<f64>>();
+            let sub = &r1 - &r0;
+            ck(&format!("op-sub[{sh:?},{lname}]"), flat(&sub) == (0..lanes).map(|j| rows[1][j] - rows[0][j]).collect::<Vec<_>>(), String::new());
+            let d = sub.clone() / 0.75;
+            ck(&format!("op-div-scalar[{sh:?},{lname}]"), flat(&d) == (0..lanes).map(|j| (rows[1][j] - rows[0][j]) / 0.75).collect::<Vec<_>>(), String::new());
+            let m = &sub * 1.5 + &d * 0.25;
+            ck(&format!("op-mul-add[{sh:?},{lname}]"), flat(&m) == (0..lanes).map(|j| (rows[1][j] - rows[0][j]) * 1.5 + ((rows[1][j] - rows[0][j]) / 0.75) * 0.25).collect::<Vec<_>>(), String::new());
+            let e = (&r0 - &sub * 2.0 - &d * 0.5) / (&sub * 0.5 + &d * 2.0 + 3.25);
+            ck(&format!("op-chain[{sh:?},{lname}]"), flat(&e).iter().zip(0..lanes).all(|(g, j)| { let s_ = rows[1][j] - rows[0][j]; let d_ = s_ / 0.75; let w = (rows[0][j] - s_ * 2.0 - d_ * 0.5) / (s_ * 0.5 + d_ * 2.0 + 3.25); g.to_bits() == w.to_bits() || (g.is_nan() && w.is_nan()) }), String::new());
+            // broadcast of a lane bundle along axis 0, array + array
+            let k1 = a.clone();
+            let k2 = a.mapv(|v| v * 0.5 + 1.0);
+            let s2 = k1.clone() + &sub * k2.clone();
+            let rows2 = rows_of(&k2);
+            ck(&format!("op-broadcast[{sh:?},{lname}]"), rows_of(&s2) == (0..n).map(|i| (0..lanes).map(|j| rows[i][j] + (rows[1][j] - rows[0][j]) * rows2[i][j]).collect::<Vec<_>>()).collect::<Vec<_>>(), String::new());
+            // slicing along axis 0
+            let mut t = a.clone();
+            t.slice_axis_inplace(Axis(0), ndarray::Slice::from(0..-2));
+            ck(&format!("slice_axis_inplace[{sh:?},{lname}]"), rows_of(&t) == rows[..n - 2].to_vec(), String::new());
+            let o = a.slice_axis(Axis(0), ndarray::Slice::from(0..-1)).to_owned();
+            ck(&format!("slice_axis-to_owned[{sh:?},{lname}]"), rows_of(&o) == rows[..n - 1].to_vec(), String::new());
+            let mut u = a.clone();
+            u.slice_axis_mut(Axis(0), ndarray::Slice::from(0..-2)).assign(&t.mapv(|v| v + 10.0));
+            let ru = rows_of(&u);
+            ck(&format!("slice_axis_mut-assign[{sh:?},{lname}]"), (0..n).all(|i| if i < n - 2 { ru[i] == rows[i].iter().map(|v| v + 10.0).collect::<Vec<_>>() } else { ru[i] == rows[i] }), String::new());
+            let mut w = a.clone();
+            w.assign(&sub);
+            ck(&format!("assign-broadcast[{sh:?},{lname}]"), rows_of(&w).iter().all(|r| *r == flat(&sub)), String::new());
+            let mut z = a.clone();
+            z.index_axis_mut(Axis(0), n - 1).assign(&sub);
+            let rz = rows_of(&z);
+            ck(&format!("assign-row[{sh:?},{lname}]"), (0..n).all(|i| if i == n - 1 { rz[i] == flat(&sub) } else { rz[i] == rows[i] }), String::new());
+            // element-wise comparison
+            let mut b = a.clone();
+            ck(&format!("eq-same[{sh:?},{lname}]"), !(a.index_axis(Axis(0), 0) != b.index_axis(Axis(0), 0)), String::new());
+            if lanes > 0 {
+                let last = b.index_axis(Axis(0), 0).len() - 1;
+                *b.index_axis_mut(Axis(0), 0).iter_mut().nth(last).unwrap() += 1.0;
+                ck(&format!("ne-one-lane[{sh:?},{lname}]"), a.index_axis(Axis(0), 0) != b.index_axis(Axis(0), 0), String::new());
+                let mut c = a.clone();
+                *c.index_axis_mut(Axis(0), 0).iter_mut().next().unwrap() = f64::NAN;
+                ck(&format!("ne-nan[{sh:?},{lname}]"), c.index_axis(Axis(0), 0) != c.index_axis(Axis(0), 0), String::new());
+            }
+        }
+    }
     emit(scn, &v);
 }
